@@ -70,6 +70,8 @@ pub struct Views {
 #[derive(Clone, Debug, Default, PartialEq)]
 pub struct CmpSide {
     pub eq: Option<(bool, bool)>,
+    /// `a == a`, `a != a` on the very same object (identity shortcuts must not change the answer)
+    pub eq_same: Option<(bool, bool)>,
     pub pord: Option<(Option<Ordering>, bool, bool, bool, bool)>,
     pub ord: Option<Result<Ordering, String>>,
     pub hash_a: Option<u64>,
@@ -118,6 +120,8 @@ pub struct SerObs {
     pub inner_roundtrip: Option<Result<Value, String>>,
     /// newtype round trip: from::<T>(to(v)).into_inner()
     pub t_roundtrip: Option<Result<Value, String>>,
+    /// RON with `struct_names(true)`: (text of T, text of RefT, T read back from its own text)
+    pub ron_named: Option<(Result<String, String>, Result<String, String>, Option<Result<Value, String>>)>,
     /// the same value in container positions: (position, bytes of container<T>, of container<Inner>, of container<RefT>, container<T> read back)
     pub nested: Vec<(Pos, Result<Vec<u8>, String>, Result<Vec<u8>, String>, Result<Vec<u8>, String>, Option<DeObs>)>,
 }
@@ -205,7 +209,11 @@ pub trait Subject {
         None
     }
     /// which Deserializer entry points the impl calls (probing deserializer)
-    fn de_probe(&self) -> Option<Vec<String>> {
+    fn de_probe(&self) -> Option<(Vec<String>, Vec<(String, Value)>)> {
+        None
+    }
+    /// the document `[raw]` (a one-element sequence) offered through serde's SeqDeserializer
+    fn de_seq_form(&self, _raw: &Value) -> Option<DeObs> {
         None
     }
     fn arb(&self, _bytes: &[u8]) -> Option<ArbObs> {
